@@ -688,24 +688,36 @@ def glue_trio() -> None:
             # We're in the initial setup-y part, thread not running yet
             return None
 
-        # Find the thread that's hosting the sync_fn
+        # Find the thread that's hosting the sync_fn, and the actual frames
+        # where the sync_fn and its callees are running. The thread's name
+        # doesn't have to be unique (the same thread_name can be passed to
+        # several calls), so also check that its worker_fn is the one of
+        # this call, going by the task_register that both of them refer to.
+        task_register = frame.pyframe.f_locals.get("task_register")
+        all_frames = sys._current_frames()
+        inner_frame: types.FrameType | None = None
+        previous: types.FrameType | None = None
         for thread in threading.enumerate():
-            if thread.name is thread_name:
+            if thread.name is not thread_name:
+                continue
+            inner_frame = all_frames.get(thread.ident or 0)
+            previous = None
+            current = inner_frame
+            while current is not None and current.f_code is not worker_fn.__code__:
+                previous = current
+                current = current.f_back
+            if current is None or previous is None:  # pragma: no cover
+                # We either didn't find the worker_fn, or it didn't have a callee.
+                # Thread isn't doing anything interesting yet.
+                continue
+            if (
+                task_register is None
+                or current.f_locals.get("task_register", task_register)
+                is task_register
+            ):
                 break
         else:  # pragma: no cover
             # Thread isn't running yet
-            return None
-
-        # Find the actual frames where the sync_fn and its callees are running
-        inner_frame = sys._current_frames().get(thread.ident or 0)
-        previous: types.FrameType | None = None
-        current = inner_frame
-        while current is not None and current.f_code is not worker_fn.__code__:
-            previous = current
-            current = current.f_back
-        if current is None or previous is None:  # pragma: no cover
-            # We either didn't find the worker_fn, or it didn't have a callee.
-            # Thread isn't doing anything interesting yet.
             return None
 
         frame.hide = True
